@@ -5,12 +5,16 @@
 package main
 
 import (
+	"verif/harness/suites/dwt"
 	"verif/harness/suites/j2kblocks"
+	"verif/harness/suites/j2ke2e"
 	"verif/harness/vhlib"
 )
 
 func main() {
 	s := vhlib.Suites{}
 	j2kblocks.Register(s)
+	dwt.Register(s)
+	j2ke2e.Register(s)
 	vhlib.Main(s)
 }
